@@ -4,12 +4,14 @@ UNITS = []
 
 # ---- buffering of an unfinished line: hard limit, no truncation, bytes preserved (C10; L1 of C03) --------------------
 BUF_H = '''
-#define CH 4
+#define CH 8
 static void buf_case(size_t bs, size_t n, size_t consume, size_t hard, size_t hdrlen, int has_hdr) {
-  htp_connp_t *c = calloc(1, sizeof(*c)); htp_tx_t *tx = calloc(1, sizeof(*tx)); htp_cfg_t *cfg = calloc(1, sizeof(*cfg));
-  unsigned char *chunk = malloc(CH); bstr *hdr = malloc(sizeof(bstr));
+  /* static objects: zero initialisation is a constant for symex (calloc keeps every field symbolic) */
+  static htp_connp_t C; static htp_tx_t TX; static htp_cfg_t CFG; static bstr HDR;
+  htp_connp_t *c = &C; htp_tx_t *tx = &TX; htp_cfg_t *cfg = &CFG; bstr *hdr = &HDR;
+  unsigned char *chunk = malloc(CH);
   unsigned char *buf = bs ? malloc(bs) : NULL;
-  if (!c || !tx || !cfg || !chunk || !hdr || (bs && !buf)) { free(c); free(tx); free(cfg); free(chunk); free(hdr); free(buf); return; }
+  if (!chunk || (bs && !buf)) { free(chunk); free(buf); return; }
   unsigned char init[CH]; for (int i = 0; i < CH; i++) chunk[i] = init[i];
   unsigned char oldb[CH]; for (size_t i = 0; i < bs; i++) { buf[i] = oldb[i]; }
   hdr->len = hdrlen; hdr->size = hdrlen; hdr->realptr = NULL;
@@ -37,7 +39,7 @@ static void buf_case(size_t bs, size_t n, size_t consume, size_t hard, size_t hd
     VASSERT(c->DIR_buf_size == bs && c->DIR_current_consume_offset == (int64_t) consume, "failed buffering leaves size and cursor unchanged");
     if (bs) { VASSERT(c->DIR_buf == buf, "failed realloc keeps the old buffer"); if (gk < bs) VASSERT(c->DIR_buf[gk] == oldb[gk], "old bytes intact after failed realloc"); }
   }
-  free(c->DIR_buf); free(c); free(tx); free(cfg); free(chunk); free(hdr);
+  free(c->DIR_buf); free(chunk);
 }
 void htp_log(htp_connp_t *connp, const char *file, int line, enum htp_log_level_t level, int code, const char *fmt, ...) { }
 #define C(b, k) if (bs == (b) && n == (k)) { buf_case((b), (k), consume, hard, hdrlen, has_hdr); }
@@ -46,7 +48,7 @@ void HARNESS(void) { size_t bs, n, consume, hard, hdrlen; int has_hdr;
   CASES
   CANARY(); }'''
 for d, fn in (('in', 'htp_connp_req_buffer'), ('out', 'htp_connp_res_buffer')):
-    for bmax, t in ((2, 0), (3, 1)):
+    for bmax, t in ((4, 0), (6, 1)):
         cases = ' '.join('C(%d, %d)' % (b, k) for b in range(bmax + 1) for k in range(bmax + 1))
         UNITS.append(U(name='%s_cap%d' % (fn, bmax), props=['C10', 'C03', 'C01', 'C18'], kind='lemma',
                        src=['htp_request.c' if d == 'in' else 'htp_response.c'], contracts_inc=[],
